@@ -108,6 +108,8 @@ def h_reduced(eng, units):
 
 
 def _proportional(da, db):
+    if not da and not db:
+        return True  # two dimensionless units can always be merged (exponent ratio 1)
     if not da or not db or set(da) != set(db):
         return False
     ratios = {Fraction(db[k]) / Fraction(da[k]) for k in da}
@@ -255,6 +257,7 @@ def cases(tier, seed):
         for s in systems:
             out.append(Case("H15.a", f"root-base:{_sig(ul)}:{s}", M, "h_root_base", {"units": ul, "system": s}, validate=1))
     red = [[["inch", 1], ["meter", 1]], [["liter", 1], ["meter", -2]], [["hour", 1], ["second", -1]], [["acre", 1], ["foot", -2]], [["gram", 2], ["pound", -1]], [["meter", 1], ["second", -1]], [["gallon", 1], ["inch", -3], ["newton", 1]]]
+    red += [[["degree", 1], ["radian", 1], ["meter", 1]], [["percent", 1], ["second", 1], ["count", -1]], [["ppm", 1], ["gram", 1], ["percent", -1]], [["turn", 1], ["meter", 1], ["radian", -1]], [["percent", 1], ["ppm", 1]]]
     red += [draw(rnd.choice([2, 3])) for _ in range(30 if big else 8)]
     for ul in red:
         out.append(Case("H15.b", f"reduced:{_sig(ul)}", M, "h_reduced", {"units": ul}, validate=1))
